@@ -25,19 +25,20 @@ RULE = ("Programs are lists of items (NOP, RMB n, LDA 100,X, LDX #$1234, a branc
         "in place) giving the true address of every item; every relative statement is listed at its true address, "
         "its target's symbol-table value is the true address of the labelled item, the instruction decoded there has "
         "length = next row - row and (address + length + d) mod 65536 = target + k; rejected -> justified only if some short branch cannot reach even with every PCR "
-        "statement at its smallest size. Non-trivial = some |distance| within 8 of 127/128 or 32767/32768, or >= 2 "
+        "statement at its smallest size. A bare numeric n,PCR / [n,PCR] (n = 0, the 8-bit and 16-bit limits and values either side, decimal and hex) on the same mnemonics, if accepted, must be the PC-relative post-byte ($8C/$8D, $9C/$9D) with displacement n. Non-trivial = some |distance| within 8 of 127/128 or 32767/32768, or >= 2 "
         "PCR statements with overlapping spans; distinct by case hash.")
 ASSUMPTIONS = [
     "vlib/ref6809.py is the trusted decoder; filler sizes (NOP 1, RMB n = n, LDA 100,X = 3, LDX #$1234 = 3) are what C01/C02/C05 establish",
     "label addresses are established by walking the image; the symbol table and listing must agree with the walk",
     "hangs and crashes are judged by C13 (counted as skipped here)",
 ]
-HEALTH = {"near_limit": 0.04, "include_twice": 300, "branch_with_constant": 600}
+HEALTH = {"near_limit": 0.04, "include_twice": 300, "branch_with_constant": 600, "numeric_pcr": 600, "numeric_pcr_zero": 20}
 EXHAUSTIVE = {"quick": ["short branches: 19 mnemonics x displacement -140..+140",
                         "long branches: 19 mnemonics x both directions x distance 0..140",
                         "label,PCR: 7 mnemonics x plain/indirect x k in -2,0,2 x both directions x distance 0..140",
                         "one PCR statement spanning 1-6 unsized PCR statements (far/near) x distance 118..136 x both directions",
                         "two crossing PCR statements x gaps 112..129 x 112..129",
+                        "bare numeric n,PCR: 7 mnemonics x plain/indirect x 31 values of n (0, +-8-bit and +-16-bit limits) x decimal / $hex / $4-digit hex",
                         "filler from a file included twice: 5 branches + 3 PCR mnemonics x distance 112..135 x both directions"],
               "thorough": ["as quick, plus nested PCR triples over a 10x10x10 gap grid"]}
 
@@ -103,11 +104,59 @@ def macro_lines(case):
     return [item_text(i) for i in fill(m["n"], m["style"])] if m else None
 
 
+NUMERIC_N = [0, 1, -1, 2, 5, 15, 16, -16, -17, 100, 126, 127, 128, 129, -127, -128, -129, -130, 255, 256, 257, -255, -256,
+             -257, 1000, -1000, 4660, 32766, 32767, -32767, -32768]
+
+
+def numpcr_lines(case):
+    n = case["n"]
+    txt = str(n) if case["sp"] == 0 else "$%X" % n if case["sp"] == 1 else "$%04X" % n
+    body = txt + ",PCR"
+    return [A.line("", "ORG", "$%04X" % case["org"]), A.line("", "NOP", ""),
+            A.line("", case["mn"], "[" + body + "]" if case["ind"] else body), A.line("", "NOP", "")]
+
+
+def execute_numpcr(case):
+    lines = numpcr_lines(case)
+    n = case["n"]
+    labels = ["numeric_pcr"] + (["numeric_pcr_zero"] if n == 0 else [])
+    out = driver.assemble(lines, timeout=60)
+    if out.kind in ("CRASH", "HANG"):
+        return skip("crash/hang: judged by C13 ({} {})".format(out.exc, out.frame), labels=labels)
+    if out.kind == "DIAG":
+        return ok(labels=labels + ["rejected"])        # acceptance of n,PCR is C01's; here: if accepted, d is n
+    img = bytes(out.image)
+    src = [l.strip() for l in lines]
+    if len(img) < 4 or img[0] != 0x12 or img[-1] != 0x12:
+        return viol("image {} does not hold NOP, the statement, NOP: {!r}".format(img.hex(), src), fid="C03:numeric-pcr", labels=labels)
+    st_bytes = img[1:-1]
+    op = 2 if case["mn"] in PCR2 else 1
+    if len(st_bytes) <= op:
+        return viol("{} has no post-byte: {!r}".format(st_bytes.hex(), src), fid="C03:numeric-pcr", labels=labels)
+    pb = st_bytes[op]
+    want_ind = 0x10 if case["ind"] else 0
+    if pb == (0x8C | want_ind) and len(st_bytes) == op + 2:
+        d = st_bytes[op + 1] - 256 if st_bytes[op + 1] >= 128 else st_bytes[op + 1]
+        good = d == n
+    elif pb == (0x8D | want_ind) and len(st_bytes) == op + 3:
+        d = (st_bytes[op + 1] << 8) | st_bytes[op + 2]
+        good = d == n % 65536
+    else:
+        return viol("{} is not a PC-relative indexed form (post-byte ${:02X}, {} bytes) for {!r}".format(
+            st_bytes.hex(), pb, len(st_bytes), src), fid="C03:numeric-pcr", labels=labels)
+    if not good:
+        return viol("{} encodes displacement {} for the bare numeric operand {}: {!r}".format(st_bytes.hex(), d, n, src),
+                    fid="C03:numeric-pcr", labels=labels)
+    return ok(labels=labels, nontrivial=True)
+
+
 def build(case):
     return [A.line("", "ORG", "$%04X" % case["org"])] + [item_text(i) for i in case["items"]]
 
 
 def render(case):
+    if case.get("numpcr"):
+        return dict(org=case["org"], source=[l.rstrip("\n") for l in numpcr_lines(case)])
     return dict(org=case["org"], source=[l.rstrip("\n") for l in build(case)])
 
 
@@ -259,6 +308,14 @@ def enumerated(tier, seed):
                 yield crossing(ma, mb, n1, n2)
     # 8. the filler between source and target comes from one label-free file included twice
     yield from include_family()
+    # 8. a bare numeric n,PCR / [n,PCR]: the displacement is n itself (0 included: there is no ",PCR without offset" form)
+    for mn in PCR1 + PCR2:
+        for ind in (False, True):
+            for n in NUMERIC_N:
+                for sp in (0, 1, 2):
+                    if sp and n < 0:
+                        continue
+                    yield dict(numpcr=True, mn=mn, ind=ind, n=n, sp=sp, org=(0x1000, 0x0000, 0xFF00)[(n + sp) % 3])
     if tier == "thorough":
         g = [0, 1, 40, 41, 42, 43, 44, 45, 80, 120]
         for a in g:
@@ -397,6 +454,8 @@ def searches(tier):
 
 
 def execute(case):
+    if case.get("numpcr"):
+        return execute_numpcr(case)
     items = case["items"]
     lines = build(case)
     # layout bounds from the construction (independent of the tool)
